@@ -553,6 +553,9 @@ class NumAnalysis:
                 sv = place_var(mk_place(rv["use"].get("cp") or rv["use"].get("mv")))
                 if sv in st.bools and dvar is not None:
                     st.bools[dvar] = st.bools[sv]
+            elif "use" in rv and "k" in rv["use"] and "bool" in rv["use"]["k"] and dvar is not None:
+                # constant flag: an always-true / always-false comparison
+                st.bools[dvar] = ("Eq", ("c", 1 if rv["use"]["k"]["bool"] else 0), ("c", 1))
             return
         if int_range(dty) is not None:
             val = self.ev_rvalue_int(st, rv, dty)
